@@ -186,6 +186,9 @@ var c02Wraps = []struct{ name, pre, post, opre, opost string }{
 	{"for-iterator-break", `<%= for (v) in range(1, 3) { %>`, `<% break %>never<% } %>`, "", ""},
 	{"for-slice-continue", `<%= for (v) in one { %>`, `<% continue %>never<% } %>`, "", ""},
 	{"for-map-break", `<%= for (k, v) in {"a": 1, "b": 2} { %>`, `<% break %>never<% } %>`, "", ""},
+	// the block of a helper called in a loop body ends with break / continue: the helper still receives the block's text
+	{"for-helper-break", `<%= for (v) in range(1, 3) { %><%= blk() { %>`, `<% break %>never<% } %>never<% } %>`, "{", "}"},
+	{"for-helper-continue", `<%= for (v) in one { %><%= blk() { %>`, `<% if (true) { continue } %>never<% } %>never<% } %>`, "{", "}"},
 }
 
 func init() {
@@ -213,7 +216,7 @@ func init() {
 			return s
 		},
 		Run:  c02Run,
-		Rule: "family A: every string over {< % > \\ = # a \" { \\n é} up to length L bare, and s1·TAG·s2 around each of 4 generated tags (|s1|<=3,|s2|<=2), compared with a left-to-right reference scanner that knows only the two escapes; templates whose reference scan meets a live <% that is not the generated tag are outside the grammar (totality only). Family B: <%= \"S\" %> / <%= `S` %> / let-bound / helper-argument string literals for every body S over {a \\ \" % > < # \\n é } space `} up to length L that the reference tokeniser closes at its own quote; expected = HTML-escape(denotation). Family C: every sequence of <=3 items from {text, output tag, output of a template function that has literal text and an explicit return, 24 silent constructs (expression/let/assign/if/for/comment/line-comment/fn statements incl. values that are HTML)} in 10 placements (top, if, else, for, fn body, helper block, for+if, iterator loop ending in break, slice loop ending in continue, map loop ending in break); expected = the same sequence with silent items deleted. Family D: comment tags whose body is any string of <=3 (4) symbols over {a \" ' # ` < % { } ( \\n space \\ = let 1.2.3} not containing the closing delimiter, spaced and tight, at top level and inside a block: the tag contributes nothing and the template continues after its %>. Non-trivial: contains an escape-relevant byte next to a boundary / a silent item.",
+		Rule: "family A: every string over {< % > \\ = # a \" { \\n é} up to length L bare, and s1·TAG·s2 around each of 4 generated tags (|s1|<=3,|s2|<=2), compared with a left-to-right reference scanner that knows only the two escapes; templates whose reference scan meets a live <% that is not the generated tag are outside the grammar (totality only). Family B: <%= \"S\" %> / <%= `S` %> / let-bound / helper-argument string literals for every body S over {a \\ \" % > < # \\n é } space `} up to length L that the reference tokeniser closes at its own quote; expected = HTML-escape(denotation). Family C: every sequence of <=3 items from {text, output tag, output of a template function that has literal text and an explicit return, 24 silent constructs (expression/let/assign/if/for/comment/line-comment/fn statements incl. values that are HTML)} in 12 placements (top, if, else, for, fn body, helper block, for+if, iterator loop ending in break, slice loop ending in continue, map loop ending in break, a helper's block in a loop body ending in break / continue); expected = the same sequence with silent items deleted. Family D: comment tags whose body is any string of <=3 (4) symbols over {a \" ' # ` < % { } ( \\n space \\ = let 1.2.3} not containing the closing delimiter, spaced and tight, at top level and inside a block: the tag contributes nothing and the template continues after its %>. Non-trivial: contains an escape-relevant byte next to a boundary / a silent item.",
 		Bound: func(th bool) string {
 			if th {
 				return "A: bare |s|<=6, around |s1|<=3 |s2|<=2, core alphabet {\\ < % a} bare |s|<=10 and before/around a tag |s|<=8; B: |S|<=5; C: sequences <=3"
